@@ -357,7 +357,8 @@ pub fn directed_texts(set: &str) -> Vec<(String, String)> {
             // every composite construct with operands that announce their evaluation: the order of the
             // printed lines and the point at which an error strikes are part of what a program means
             let pre = "stel spoor_n = 0; functie spoor(k) { spoor_n = spoor_n * 10 + k; print(\"op {}\", k); k }; \
-                       functie waar(k) { print(\"op {}\", k); ja }; functie onwaar(k) { print(\"op {}\", k); nee }; stel a = [10, 20, 30]; stel x = 5;";
+                       functie waar(k) { print(\"op {}\", k); ja }; functie onwaar(k) { print(\"op {}\", k); nee }; stel a = [10, 20, 30]; stel x = 5; \
+                       functie zet(k) { x = k; k }; functie a_zet(i, k) { a[i] = k; k };";
             let exprs = [
                 "spoor(1) + spoor(2) * spoor(3)", "spoor(1) - (spoor(2) - spoor(3))", "spoor(3) / spoor(1) % spoor(2)",
                 "spoor(1) < spoor(2)", "spoor(2) == spoor(2)", "spoor(1) != spoor(2)", "spoor(2) >= spoor(1)",
@@ -368,6 +369,9 @@ pub fn directed_texts(set: &str) -> Vec<(String, String)> {
                 "lengte([spoor(1), spoor(2)])", "string(spoor(1)) == string(spoor(1))", "type(spoor(1) + spoor(2))",
                 "print(\"{} {}\", spoor(1), spoor(2))", "als waar(1) { spoor(2) } anders { spoor(3) }", "als onwaar(1) { spoor(2) } anders als waar(3) { spoor(4) }",
                 "-spoor(1) + spoor(2)", "spoor(1) + -spoor(2)",
+                // an operand that changes a variable the other operand reads: the left operand is read first
+                "x + zet(7)", "zet(7) + x", "x * zet(3)", "x == zet(5)", "x != zet(5)", "x - zet(2)", "x < zet(9)", "x + (x = 2)", "(x = 2) + x",
+                "a[0] + a_zet(0, 99)", "[x, zet(8), x]", "x + zet(1) + x",
                 // an error in the middle: everything before it has happened, nothing after it
                 "spoor(1) + waar(2) + spoor(3)", "[spoor(1), spoor(2) / 0, spoor(3)]", "a[spoor(7)] = spoor(2)", "a[spoor(1)] = spoor(2) + ja",
                 "print(\"{} {}\", spoor(1), 1 / 0, spoor(3))", "spoor(1) / (spoor(2) - spoor(2))", "int(\"x\") + spoor(1)", "spoor(1) + int(\"x\")",
